@@ -280,4 +280,5 @@ def check(case, mon, ctx):
         hh = [hyps[k] for k in order]
         ss = [scores[k] for k in order]
         cn, must_read, total = run_history(hh, ss, mon, ctx)
+        mon.observe('network', [sorted((repr(k), round(v, 12)) for k, v in pos.items()) for pos in cn])
         check_paths(cn, mon, ctx, {'history': hh, 'scores': ss})
